@@ -3,3 +3,4 @@ import YV.Model.XEval
 import YV.Model.XLex
 import YV.Model.XParse
 import YV.Spec.XSem
+import YV.Model.XPathM
